@@ -4,6 +4,14 @@ VERIF = os.path.dirname(os.path.dirname(os.path.abspath(__file__)))
 ALL = [f"C{n:02d}" for n in range(1, 21)]
 
 CLAIMED = {
+ "C01": dict(
+   text="Theorems (Coq): for the Compile.v model of the closure compiler, run (build V e) x penv = evalR (env_of V x) penv e for every well-formed tree, every duplicate-free variable list containing its variables (any permutation/superset), every point and every parameter valuation read at call time; the builder is total (fails iff a variable is missing); the explicit-stack builder returns the same closure as the recursive one for every switch threshold. Tie: six implementation paths (compiled, cached, forced explicit-stack, dict function, CompiledExpression.value, evaluate) must each return a float inside the machine-checked interval enclosure of the real denotation, every run.",
+   note="Trusted: Coq kernel + vm_compute; Reals axioms as printed; Interval library (SemI.evalI_correct) for the numeric channel; NumPy primitives read as the real functions they implement and assumed within one outward rounding at 40 bits; hand-written model Compile.v (closures are opaque, so its tie is behavioural); array-valued constants/parameters not modelled.",
+   technique="Coq proof (structural induction, stack-machine simulation) + interval-enclosure differential check of the implementation's numeric outputs", ref="6/C01"),
+ "C16": dict(
+   text="Theorems (Coq, closed under the global context): problem_variables of the Vars.v model returns exactly the occurring names, without duplicates, strongly sorted by a proved total order (natural key then raw name), so the result is unique and independent of construction order; the single-vector shortcut equals the general path; bounds are aligned with the reported order. Tie: Problem.variables / n_variables / get_bounds must equal the model exactly on generated problems (adversarial names, views, shuffled construction) in two interpreters with different PYTHONHASHSEED, every run.",
+   note="Trusted: Coq kernel; no axioms; model Vars.v (ASCII names; variables identified by name as optyx does); vector identity numbering by the serialiser (vid_consistent hypothesis, evaluated per case).",
+   technique="Coq proof (total order, sortedness + permutation => uniqueness) + exact differential correspondence under two hash seeds", ref="6/C16"),
  "C04": dict(
    text="Theorems (Coq): the Degree.v model of the degree analysis is sound w.r.t. the real-number semantics for every expression tree (degree d => polynomial of total degree <= d; is_linear => affine; is_quadratic => degree <= 2), and all entry points (recursive, explicit-stack, any switch threshold incl. the generated one) agree. Tie: every implementation entry point must equal the model's answer on generated API programs, corner cases and deep chains, every run.",
    note="Trusted: Coq kernel; Reals axioms (sig_forall_dec, sig_not_dec, functional_extensionality_dep, classic) as printed; hand-written model Degree.v validated by exact differential comparison with the implementation; serialiser/generator; NumPy primitives read as the real functions. Array-valued constants are outside the model.",
